@@ -2,7 +2,10 @@ module verif
 
 go 1.23.0
 
-require github.com/notaryproject/notation-core-go v0.0.0
+require (
+	github.com/notaryproject/notation-core-go v0.0.0
+	golang.org/x/crypto v0.37.0
+)
 
 require (
 	github.com/fxamacker/cbor/v2 v2.8.0 // indirect
@@ -10,7 +13,6 @@ require (
 	github.com/notaryproject/tspclient-go v1.0.0 // indirect
 	github.com/veraison/go-cose v1.3.0 // indirect
 	github.com/x448/float16 v0.8.4 // indirect
-	golang.org/x/crypto v0.37.0 // indirect
 )
 
 replace github.com/notaryproject/notation-core-go => /repo
